@@ -193,7 +193,7 @@ fn key_file_case(r: &mut Rng, seed: u64) -> BytesTrace {
     let k = keys::key(KeySpec { kind, seed: r.next() >> 16 });
     let scheme = match kind {
         KeyKind::Ed | KeyKind::EdPk8 => "ed25519",
-        KeyKind::Ecdsa => "ecdsa-sha2-nistp256",
+        KeyKind::Ecdsa | KeyKind::EcdsaBare => "ecdsa-sha2-nistp256",
         KeyKind::Rsa2048S256 | KeyKind::Rsa4096S256 => "rsassa-pss-sha256",
         KeyKind::RsaUnknown => "rsassa-pss-sha384",
         _ => "rsassa-pss-sha512",
@@ -212,7 +212,22 @@ fn key_file_case(r: &mut Rng, seed: u64) -> BytesTrace {
             pem.push_str("-----END PUBLIC KEY-----\n");
             ("from_pem_spki", pem.into_bytes())
         }
-        3 => ("pubkey_json", serde_json::to_vec(&k.public).unwrap()),
+        3 => {
+            // the key object as JSON; now and then with its key material a few characters short or long
+            let mut j = k.public_json();
+            if r.chance(1, 2) {
+                if let Some(p) = j["keyval"]["public"].as_str().map(|s| s.to_string()) {
+                    let np = match r.below(4) {
+                        0 => p[..p.len().saturating_sub(2)].to_string(),
+                        1 => format!("{p}00"),
+                        2 => String::new(),
+                        _ => p[..p.len().saturating_sub(1)].to_string(),
+                    };
+                    j["keyval"]["public"] = serde_json::json!(np);
+                }
+            }
+            ("pubkey_json", serde_json::to_vec(&j).unwrap())
+        }
         _ => ("from_ed25519", r.bytes(64)),
     };
     let mut labels = vec![format!("keyfile:{entry}")];
